@@ -143,22 +143,29 @@ def cfgs(tier):
         small.append(({"mem": "MultiReadMemory", "depth": 2, "width": 2, "gran": 1, "rp": 2, "wp": 1,
                        "transparent": [[0, 0]], "init": [2, 1], "reduced": False}, {}))
         for mem in ("MultiportXORMemory", "MultiportXORILVTMemory", "MultiportOneHotILVTMemory"):
+            # every configuration is bounded by depth AND by a state cap so that the whole tier stays within ~30 minutes;
+            # the evidence reports the depth actually completed per configuration
+            cap = {"max_states": 120000}
             for tr in ("none", "all", [[0, 1]]):
-                for init in ([], [1, 0]):
-                    big.append(({"mem": mem, "depth": 2, "width": 1, "rp": 1, "wp": 2, "transparent": tr, "init": init},
-                                {"max_depth": 6, "max_states": 400000}))
+                big.append(({"mem": mem, "depth": 2, "width": 1, "rp": 1, "wp": 2, "transparent": tr, "init": [1, 0]},
+                            dict(cap, max_depth=5)))
+            big.append(({"mem": mem, "depth": 2, "width": 1, "rp": 1, "wp": 2, "transparent": "none", "init": []},
+                        dict(cap, max_depth=5)))
+            for tr in ("none", "all"):
                 big.append(({"mem": mem, "depth": 4, "width": 1, "rp": 1, "wp": 2, "transparent": tr, "init": [0, 1, 1, 0]},
-                            {"max_depth": 4, "max_states": 400000}))
+                            dict(cap, max_depth=3)))
                 big.append(({"mem": mem, "depth": 2, "width": 1, "rp": 2, "wp": 2, "transparent": tr, "init": [0, 1]},
-                            {"max_depth": 4, "max_states": 400000}))
+                            dict(cap, max_depth=3)))
                 big.append(({"mem": mem, "depth": 2, "width": 2, "rp": 1, "wp": 2, "transparent": tr, "init": [2, 1]},
-                            {"max_depth": 4, "max_states": 400000}))
-                big.append(({"mem": mem, "depth": 3, "width": 1, "rp": 1, "wp": 3, "transparent": tr, "init": []},
-                            {"max_depth": 3, "max_states": 400000}))
+                            dict(cap, max_depth=3)))
+            big.append(({"mem": mem, "depth": 3, "width": 1, "rp": 1, "wp": 3, "transparent": "all", "init": []},
+                        dict(cap, max_depth=3)))
+            big.append(({"mem": mem, "depth": 2, "width": 1, "rp": 1, "wp": 3, "transparent": "none", "init": [], "wdata": [1]},
+                        dict(cap, max_depth=4)))
         for mem in ("MultiportXORILVTMemory", "MultiportOneHotILVTMemory"):
             for tr in ("none", "all"):
                 big.append(({"mem": mem, "depth": 2, "width": 2, "gran": 1, "rp": 1, "wp": 2, "transparent": tr, "init": [],
-                             "rows": [0], "wdata": [0, 3], "wen": [1, 3]}, {"max_depth": 6, "max_states": 400000}))
+                             "rows": [0], "wdata": [0, 3], "wen": [1, 3]}, {"max_depth": 6, "max_states": 120000}))
     return small, big
 
 
